@@ -59,6 +59,31 @@ INDEX = {
  "C19-2": ("KeyFile.Write no longer truncates: a shorter key file written over a longer one cannot be read back", "a key file written to a path that already holds a longer file"),
  "C20-1": ("plasma genesis: per-beneficiary fused sum not stored back: genesis hash depends on the order of the fusion list and the state differs from the validated configuration", "two fusion entries naming the same beneficiary with different amounts"),
  "C20-2": ("start-up check compares the genesis momentum's ChangesHash instead of its Hash", "an existing database restarted with a configuration differing only in extra data / genesis timestamp"),
+ # ---- second round (authors were told what the first round had produced) ----
+ "C01-3": ("verifier lost the negative-amount branch: a transfer published over JSON-RPC with its amount negated (same hash and signature) credits the sender and the receiver",
+           "ledger.publishRawTransaction with \"amount\":\"-N\" (JSON keeps the sign, the wire formats cannot)"),
+ "C01-4": ("CheckGenesis accepts a configuration whose balances add up to less than the declared total supply (one-sided comparison)",
+           "a custom genesis file handing out less than a token's totalSupply"),
+ "C02-3": ("ExpectedNum and FactualNum swapped when a persisted consensus point is decoded: a node restarted on its consensus database computes other pillar statistics and refuses the momentum carrying the epoch's reward update",
+           "restart inside an epoch after a stored period in which a pillar missed a slot, then that epoch's reward update"),
+ "C02-4": ("rollback purges only the near view cache; the far cache (views more than 360 versions behind the frontier) survives a branch switch",
+           "a view more than 360 momentums deep read before a branch switch and read again afterwards, the new branch touching a key untouched since"),
+ "C03-3": ("user receive blocks may carry batched (descendant) blocks: an unsigned, never executed send lands on the account chain",
+           "a user receive with a well-formed batched block, hashed over it and signed by the owner"),
+ "C03-4": ("a receive by a non-addressee (allowed below the enforcement height) skips the already-received check",
+           "a network below ReceiverMismatchEnforcementHeight, an account receiving a send not addressed to it a second time"),
+ "C04-3": ("receiver check tests the send's addressee for being a contract instead of the receiver: a user can receive a send addressed to a contract, which the contract also receives",
+           "a hand-made user receive of a send addressed to an embedded contract"),
+ "C05-3": ("momentums generated by the node itself skip verification (including the elected-producer check) before insertion and broadcast",
+           "a stale producer event: a pillar of the node told to produce for a slot it is not elected for"),
+ "C05-4": ("election permutations drawn from one shared rand.Rand: concurrent cache-missing elections corrupt each other",
+           "two elections that both miss the cache overlapping (insert goroutine, consensus loop, RPC)"),
+ "C06-3": ("rollback keeps cached view overlays computed while the first abandoned momentum was the frontier (off by one in a selective purge)",
+           "a view at or below the fork point last read at the first abandoned momentum, read again after the switch"),
+ "C06-4": ("the undo patch of a rollback is applied outside the write batch", "a process death inside a rollback, then restart (crash-free runs are identical)"),
+ "C07-3": ("a refused stale-parent commit still overwrites the stored redo/undo records of the real commit at that height",
+           "Add on a known stale parent, then a historical view below it not cached yet, a Pop through that height, or GetPatch"),
+ "C07-4": ("the scan of a delete-enabled store skips only one tombstone in a row", "two deleted keys adjacent in key order inside the scanned prefix"),
 }
 
 CAUGHT = json.load(open("/verif/seeded/results.json")) if os.path.exists("/verif/seeded/results.json") else {}
@@ -113,7 +138,7 @@ def main():
             if os.path.exists(os.path.join(src, f)):
                 shutil.copy(os.path.join(src, f), os.path.join(dst, "author_" + f))
         line = None
-        for lf in ("/tmp/verify_list1.txt", "/tmp/verify_list2.txt"):
+        for lf in ("/tmp/verify_list1.txt", "/tmp/verify_list2.txt", "/tmp/verify_list4.txt", "/tmp/verify_list5.txt", "/tmp/verify_list6.txt"):
             if os.path.exists(lf):
                 for l in open(lf):
                     p = l.split()
